@@ -1142,3 +1142,19 @@ package apd
 //@   ensures [nan] NaN1(x, d, ret0)
 //@   ensures [infneg] old(x.Form == Infinite && x.Negative) ==> (d.Form == NaN && ret0 == InvalidOperation)
 //@   ensures [inf] old(x.Form == Infinite && !x.Negative) ==> (d.Form == Infinite && !d.Negative && ret0 == 0)
+
+//@ func (*Context).Exp
+//@   props C03 C04 C05 C06 C08 C18
+//@   exported
+//@   requires writable(d) && inv(x) && c.Precision <= 2000000000
+//@   assigns d
+//@   ensures [invkeep] old(inv(d)) ==> inv(d)
+//@   loop 1 invariant closed(ed.Flags) && ed.Ctx == nc && nc != nil && writable(nc) && nc != c && inv(sum) && inv(tmp1) && inv(tmp2) && inv(r) && old(inv(d)) == inv(d)
+//@   loop 1 decreases i
+//@   ensures [closed] closed(ret0)
+//@   ensures [trap] trapped(c, ret0) ==> ret1 != nil
+//@   ensures [edclean] ret1 == nil ==> edclean(ed)
+//@   ensures [nan] NaN1(x, d, ret0)
+//@   ensures [infneg] old(x.Form == Infinite && x.Negative) ==> (d.Form == Finite && val(d.Coeff) == 0 && ret0 == 0)
+//@   ensures [inf] old(x.Form == Infinite && !x.Negative) ==> (d.Form == Infinite && !d.Negative && ret0 == 0)
+//@   ensures [zero] old(iszero(x)) ==> (d.Form == Finite && val(d.Coeff) == 1 && d.Exponent == 0 && !d.Negative && ret0 == 0)
